@@ -69,12 +69,12 @@ Example C04_other_strings_dropped :
   comments (run_acts 1 [ADecs 1 "Ident" "Start" false [DOther 5 7]]) = [].
 Proof. reflexivity. Qed.
 
-(* Known defect (finding c04-first-emission-newline): a "\n" as the first thing emitted in
-   a file duplicates line offset 0 and SetLines fails. *)
-Example C04_first_emission_newline_refuted :
-  finish (run_acts 1 [AEnter 1; ASpace false false SNone; ADecs 1 "File" "Start" false [DNl]; AAdv 7])
-  = Panic "ff.SetLines failed".
-Proof. vm_compute. reflexivity. Qed.
+(* A "\n" as the first thing emitted in a file is rendered as a line break (before fix 3dd4b07 it
+   duplicated line offset 0 and SetLines failed: finding first-emission-newline). *)
+Example C04_first_emission_newline :
+  exists r, finish (run_acts 1 [AEnter 1; ASpace false false SNone; ADecs 1 "File" "Start" false [DNl]; AAdv 7]) = Ok r
+            /\ r_lines r = [0%Z; 1%Z].
+Proof. eexists. split; [vm_compute; reflexivity|reflexivity]. Qed.
 
 Example C04_nonvacuous :
   let acts := [AEnter 1; ADecs 1 "Field" "Start" false [DBlock 5 [] 11]; AAdv 3;
